@@ -286,3 +286,190 @@ Proof.
       * match goal with |- (if ?x then _ else _) = _ => destruct x end; reflexivity.
       * rewrite <- Ehi. reflexivity.
 Qed.
+
+(* ---------- the ticks of a domain whose admitted exponents are [f 2^l, la 2^l] ---------- *)
+Lemma isin3_true n : isin3 n = true -> n = N_inside.
+Proof. destruct n; [reflexivity | discriminate | discriminate]. Qed.
+
+Lemma qpow_succ_ge2 b n : 2 <= b -> (2 * qpow b n <= qpow b (n + 1))%Q.
+Proof.
+  intros Hb. rewrite qpow_succ by lia. pose proof (qpow_pos b n ltac:(lia)) as P.
+  assert (B : (2 <= inject_Z b)%Q) by (change 2%Q with (inject_Z 2); rewrite <- Zle_Qle; exact Hb).
+  apply Qmult_le_compat_r; lra.
+Qed.
+
+(* an end just below b^cmin (INSIDE) is not also just above b^fmin: the first admitted exponent is cmin *)
+Lemma in_lo_keep b emin c : 2 <= b -> (0 < emin)%Q -> (emin < c)%Q ->
+  near emin (qpow b (ceil_log b emin)) (c / emin) (log_mu emin c) = N_inside ->
+  le_in_lo (log_exps b emin c) = ceil_log b emin.
+Proof.
+  intros Hb P Lt N3. rewrite log_exps_in_lo.
+  destruct (isin3 (near (qpow b (floor_log b emin)) emin (c / emin) (log_mu emin c))) eqn:I; [|reflexivity].
+  apply isin3_true in I. destruct (floor_log_spec b emin Hb P) as [L U].
+  unfold ceil_log in *. destruct (Qeqb (qpow b (floor_log b emin)) emin) eqn:Q1; [reflexivity|]. exfalso.
+  pose proof (q_div_pos c emin ltac:(lra) P) as T. pose proof (log_mu_pos emin c) as M.
+  exact (near_inside_both_impossible _ _ _ _ _ _ _ (qpow_pos b _ ltac:(lia)) L (Qlt_le_weak _ _ U)
+           (qpow_succ_ge2 b _ Hb) T T M M I N3).
+Qed.
+Lemma in_hi_keep b a emax : 2 <= b -> (0 < a)%Q -> (a < emax)%Q ->
+  near (qpow b (floor_log b emax)) emax (emax / a) (log_mu a emax) = N_inside ->
+  le_in_hi (log_exps b a emax) = floor_log b emax.
+Proof.
+  intros Hb P Lt N4. rewrite log_exps_in_hi.
+  destruct (isin3 (near emax (qpow b (ceil_log b emax)) (emax / a) (log_mu a emax))) eqn:I; [|reflexivity].
+  apply isin3_true in I. destruct (floor_log_spec b emax Hb ltac:(lra)) as [L U].
+  unfold ceil_log in *. destruct (Qeqb (qpow b (floor_log b emax)) emax) eqn:Q1; [reflexivity|]. exfalso.
+  pose proof (q_div_pos emax a ltac:(lra) P) as T. pose proof (log_mu_pos a emax) as M.
+  exact (near_inside_both_impossible _ _ _ _ _ _ _ (qpow_pos b _ ltac:(lia)) L (Qlt_le_weak _ _ U)
+           (qpow_succ_ge2 b _ Hb) T T M M N4 I).
+Qed.
+
+Lemma log_ticks_first_last_gen b a c o l f la lo hi major minor : 2 <= b -> (0 < a)%Q -> (a < c)%Q ->
+  let e' := log_exps b a c in
+  le_in_lo e' = f * 2 ^ l -> le_in_hi e' = la * 2 ^ l -> 0 <= l -> f < la ->
+  la * 2 ^ l - f * 2 ^ l + 1 <= MAXINT ->
+  level_bounds o = Some (lo, hi) -> lo <= l <= hi -> la - f + 1 <= o_max o -> o_max o < MAXINT ->
+  log_ticks b a c o = TR_ticks major minor ->
+  (exists rest, major = qpow b (f * 2 ^ l) :: rest) /\ forall d, last major d = qpow b (la * 2 ^ l).
+Proof.
+  intros Hb Pa Hac e' Elo Ehi Ln Lt Hcnt Hbd Lb Fit Hmax HT. pose proof (pow2_pos l Ln) as K.
+  unfold log_ticks, log_ticks_gen in HT.
+  destruct (o_max o <=? 0) eqn:M0; [discriminate|].
+  destruct (Qeqb a c) eqn:E1; [gb_bool; lra|].
+  unfold log_fold in HT. destruct (Qltb a 0) eqn:E2; [gb_bool; lra|]. fold e' in HT.
+  destruct (find_level o (log_count e' false) 0) as [l2| |] eqn:F2; try discriminate.
+  injection HT as <- _.
+  assert (Hexp : le_in_lo e' <= le_in_hi e' + 1) by (rewrite Elo, Ehi; nia).
+  assert (H0i : log_count e' false 0 <= MAXINT).
+  { unfold log_count, log_first_last. cbn [Z.ltb Z.compare]. rewrite Elo, Ehi. change (2 ^ 0) with 1.
+    rewrite Z.div_1_r. unfold cdiv. rewrite Z.div_1_r. lia. }
+  pose proof (find_level_lowest o _ 0 lo hi l2 Hbd (log_count_nonincreasing e' Hexp lo hi H0i) F2) as (L2b & L2fit & L2low).
+  assert (L2n : 0 <= l2).
+  { destruct (Z_lt_le_dec l2 0) as [G|G]; [|exact G]. exfalso.
+    unfold log_count in L2fit. replace (l2 <? 0) with true in L2fit by (symmetry; apply Z.ltb_lt; lia).
+    lia. }
+  assert (Cin : log_count e' false l = la - f + 1).
+  { unfold log_count, log_first_last. replace (l <? 0) with false by (symmetry; apply Z.ltb_ge; lia).
+    rewrite Elo, Ehi. rewrite Z.div_mul by lia. unfold cdiv. rewrite <- Z.mul_opp_l, Z.div_mul by lia. lia. }
+  assert (L2l : l2 <= l).
+  { destruct (Z_lt_le_dec l l2) as [G|G]; [|exact G]. exfalso. specialize (L2low l ltac:(lia)). lia. }
+  pose proof (pow2_pos l2 L2n) as K2. pose proof (pow2_pos (l - l2) ltac:(lia)) as Kd.
+  assert (E : 2 ^ l = 2 ^ (l - l2) * 2 ^ l2) by (rewrite <- Z.pow_add_r by lia; f_equal; lia).
+  unfold log_ticks_at', log_ticks_pos. replace (l2 <? 0) with false by (symmetry; apply Z.ltb_ge; lia).
+  unfold log_first_last. rewrite Elo, Ehi, E, !Z.mul_assoc, Z.div_mul by lia.
+  assert (C' : cdiv (f * 2 ^ (l - l2) * 2 ^ l2) (2 ^ l2) = f * 2 ^ (l - l2)).
+  { unfold cdiv. rewrite <- Z.mul_opp_l, Z.div_mul by lia. lia. }
+  rewrite C'.
+  assert (Npos : 0 < la * 2 ^ (l - l2) - f * 2 ^ (l - l2)) by nia.
+  destruct (Z.to_nat (la * 2 ^ (l - l2) - f * 2 ^ (l - l2) + 1)) as [|n] eqn:En; [lia|].
+  split.
+  - exists (pow_seq n b (f * 2 ^ (l - l2) + 1) (2 ^ l2)). cbn [pow_seq]. reflexivity.
+  - intros d. rewrite pow_seq_last. f_equal.
+    assert (Z.of_nat n = la * 2 ^ (l - l2) - f * 2 ^ (l - l2)) by lia. nia.
+Qed.
+
+(* after Nice, the first / last major tick is the power Nice rounded out to: the new end itself when
+   the end moved, the power the end is within the slack of when the D10 repair left it in place *)
+Lemma log_ticks_core b emin emax o l (mvlo mvhi : bool) a c major minor : 2 <= b -> (0 < emin)%Q -> (emin < emax)%Q ->
+  let e := log_exps b emin emax in
+  le_out_lo e < le_out_hi e -> log_count e true 0 <= MAXINT -> o_max o < MAXINT ->
+  find_level o (log_count e true) 0 = FL_ok l ->
+  let f := fst (log_first_last e true l) in let la := snd (log_first_last e true l) in
+  (la * 2 ^ l - f * 2 ^ l + 1 <= MAXINT) ->
+  let nmn := qpow b (f * 2 ^ l) in let nmx := qpow b (la * 2 ^ l) in
+  mvlo = log_end_ok b (2 ^ l) f nmn && Qleb nmn emin ->
+  mvhi = log_end_ok b (2 ^ l) la nmx && Qleb emax nmx ->
+  a = (if mvlo then nmn else emin) -> c = (if mvhi then nmx else emax) ->
+  (mvlo = false -> near emin (qpow b (ceil_log b emin)) (emax / emin) (log_mu emin emax) = N_inside) ->
+  (mvhi = false -> near (qpow b (floor_log b emax)) emax (emax / emin) (log_mu emin emax) = N_inside) ->
+  le_amb (log_exps b a c) = false ->
+  (mvlo = false -> Qleb nmn emin = false) -> (mvhi = false -> Qleb emax nmx = false) ->
+  log_ticks b a c o = TR_ticks major minor ->
+  (exists rest, major = nmn :: rest) /\ (forall d, last major d = nmx) /\
+  (mvlo = false -> near a nmn (c / a) (log_mu a c) = N_inside) /\
+  (mvhi = false -> near nmx c (c / a) (log_mu a c) = N_inside).
+Proof.
+  intros Hb P Lt e Hlh H0 Hmax Hl f la Hcnt nmn nmx Elo Ehi Ea Ec Ilo Ihi Amb Slo Shi HT.
+  destruct (log_nice_core b emin emax o l mvlo mvhi a c Hb P Lt Hlh H0 Hmax Hl Hcnt Elo Ehi Ea Ec Ilo Ihi Amb)
+    as ((Pa & La & Cc) & _ & _ & _).
+  pose proof (level_nonneg e o l Hlh H0 Hmax Hl) as Ln. pose proof (pow2_pos l Ln) as K.
+  destruct (f_la e o l Hlh H0 Hmax Hl) as (Ef & Ela & Flt). fold f la in Ef, Ela, Flt.
+  assert (Fk : f * 2 ^ l <= le_out_lo e) by (apply fdiv_iff; [exact K | lia]).
+  assert (Lk : le_out_hi e <= la * 2 ^ l) by (apply cdiv_iff; [exact K | lia]).
+  destruct (level_bounds o) as [[lo hi]|] eqn:Hbd; [|unfold find_level in Hl; rewrite Hbd in Hl; discriminate].
+  pose proof (find_level_lowest o _ 0 lo hi l Hbd (log_count_out_nonincreasing e Hlh lo hi H0) Hl) as (Lb & Fit & _).
+  unfold log_count in Fit. replace (l <? 0) with false in Fit by (symmetry; apply Z.ltb_ge; lia).
+  unfold log_first_last in Fit. rewrite <- Ef, <- Ela in Fit.
+  assert (Ac : (a < c)%Q) by lra.
+  assert (LO : le_in_lo (log_exps b a c) = f * 2 ^ l /\ (mvlo = false -> near a nmn (c / a) (log_mu a c) = N_inside)).
+  { destruct mvlo; subst a.
+    - split; [unfold nmn; apply in_lo_pow; exact Hb | discriminate].
+    - specialize (Ilo eq_refl). specialize (Slo eq_refl). gb_bool.
+      pose proof (out_lo_keep b emin emax c Hb P Lt Cc Ilo Amb) as N3.
+      assert (Oe : le_out_lo e = ceil_log b emin) by (unfold e; rewrite log_exps_out_lo, Ilo; reflexivity).
+      assert (Fc : f * 2 ^ l = ceil_log b emin).
+      { destruct (Z.eq_dec (f * 2 ^ l) (ceil_log b emin)) as [Q1|Q1]; [exact Q1|]. exfalso.
+        destruct (ceil_log_spec b emin Hb P) as [L1 _].
+        pose proof (qpow_le b (f * 2 ^ l) (ceil_log b emin - 1) Hb ltac:(lia)) as L2. fold nmn in L2. lra. }
+      split.
+      + rewrite Fc. apply in_lo_keep; [exact Hb | exact P | lra | exact N3].
+      + intros _. unfold nmn. rewrite Fc. exact N3. }
+  assert (HI : le_in_hi (log_exps b a c) = la * 2 ^ l /\ (mvhi = false -> near nmx c (c / a) (log_mu a c) = N_inside)).
+  { destruct mvhi; subst c.
+    - split; [unfold nmx; apply in_hi_pow; exact Hb | discriminate].
+    - specialize (Ihi eq_refl). specialize (Shi eq_refl). gb_bool.
+      pose proof (out_hi_keep b emin emax a Hb Pa La Lt Ihi Amb) as N4.
+      assert (Oe : le_out_hi e = floor_log b emax) by (unfold e; rewrite log_exps_out_hi, Ihi; reflexivity).
+      assert (Lc : la * 2 ^ l = floor_log b emax).
+      { destruct (Z.eq_dec (la * 2 ^ l) (floor_log b emax)) as [Q1|Q1]; [exact Q1|]. exfalso.
+        destruct (floor_log_spec b emax Hb ltac:(lra)) as [_ U1].
+        pose proof (qpow_le b (floor_log b emax + 1) (la * 2 ^ l) Hb ltac:(lia)) as L2. fold nmx in L2. lra. }
+      split.
+      + rewrite Lc. apply in_hi_keep; [exact Hb | exact Pa | lra | exact N4].
+      + intros _. unfold nmx. rewrite Lc. exact N4. }
+  destruct LO as [Elo' Nlo]. destruct HI as [Ehi' Nhi].
+  destruct (log_ticks_first_last_gen b a c o l f la lo hi major minor Hb Pa Ac Elo' Ehi' Ln Flt Hcnt Hbd Lb Fit Hmax HT) as [R1 R2].
+  repeat split; assumption.
+Qed.
+
+(* LOG NICE IS IDEMPOTENT AND ITS ENDS ARE THE FIRST / LAST MAJOR TICK, ALSO WITH AN END LEFT IN PLACE:
+   for a positive domain emin < emax whose Nice found level l and the candidates nmn = b^(f 2^l),
+   nmx = b^(la 2^l): if every end that Nice left in place was within the slack of the power next to it
+   (decision N_inside), and no slack decision of the niced domain [a, c] is undecided, then the second
+   Nice returns [a, c]; if moreover the candidate of an unmoved end lies strictly outside the domain
+   (the end is just inside the power: the D10 situation), Ticks on [a, c] starts at nmn and ends at
+   nmx - which is the end itself for an end that moved and the power the end is within the slack of
+   (N_inside for the niced domain) for an end left in place. *)
+Theorem log_nice_idempotent_with_unmoved_end b emin emax o l : 2 <= b -> (0 < emin)%Q -> (emin < emax)%Q ->
+  let e := log_exps b emin emax in
+  le_out_lo e < le_out_hi e -> log_count e true 0 <= MAXINT -> o_max o < MAXINT ->
+  find_level o (log_count e true) 0 = FL_ok l ->
+  let f := fst (log_first_last e true l) in let la := snd (log_first_last e true l) in
+  (la * 2 ^ l - f * 2 ^ l + 1 <= MAXINT) ->
+  let nmn := qpow b (f * 2 ^ l) in let nmx := qpow b (la * 2 ^ l) in
+  let mvlo := log_end_ok b (2 ^ l) f nmn && Qleb nmn emin in
+  let mvhi := log_end_ok b (2 ^ l) la nmx && Qleb emax nmx in
+  let a := if mvlo then nmn else emin in let c := if mvhi then nmx else emax in
+  (mvlo = false -> near emin (qpow b (ceil_log b emin)) (emax / emin) (log_mu emin emax) = N_inside) ->
+  (mvhi = false -> near (qpow b (floor_log b emax)) emax (emax / emin) (log_mu emin emax) = N_inside) ->
+  le_amb (log_exps b a c) = false ->
+  log_nice b emin emax o = (a, c) /\ log_nice b a c o = (a, c) /\
+  ((mvlo = false -> Qleb nmn emin = false) -> (mvhi = false -> Qleb emax nmx = false) ->
+   forall major minor, log_ticks b a c o = TR_ticks major minor ->
+   (exists rest, major = nmn :: rest) /\ (forall d, last major d = nmx) /\
+   (mvlo = true -> a = nmn) /\ (mvhi = true -> c = nmx) /\
+   (mvlo = false -> a = emin /\ near a nmn (c / a) (log_mu a c) = N_inside) /\
+   (mvhi = false -> c = emax /\ near nmx c (c / a) (log_mu a c) = N_inside)).
+Proof.
+  intros Hb P Lt e Hlh H0 Hmax Hl f la Hcnt nmn nmx mvlo mvhi a c Ilo Ihi Amb.
+  destruct (log_nice_core b emin emax o l mvlo mvhi a c Hb P Lt Hlh H0 Hmax Hl Hcnt eq_refl eq_refl eq_refl eq_refl Ilo Ihi Amb)
+    as (_ & _ & N1 & N2).
+  split; [exact N1|]. split; [exact N2|]. intros Slo Shi major minor HT.
+  destruct (log_ticks_core b emin emax o l mvlo mvhi a c major minor Hb P Lt Hlh H0 Hmax Hl Hcnt eq_refl eq_refl eq_refl eq_refl
+              Ilo Ihi Amb Slo Shi HT) as (R1 & R2 & R3 & R4).
+  split; [exact R1|]. split; [exact R2|].
+  split; [intros M; unfold a; rewrite M; reflexivity|]. split; [intros M; unfold c; rewrite M; reflexivity|].
+  split; intros M.
+  - split; [unfold a; rewrite M; reflexivity | exact (R3 M)].
+  - split; [unfold c; rewrite M; reflexivity | exact (R4 M)].
+Qed.
